@@ -31,6 +31,7 @@ func runC02(c *Ctx) {
 	c02R4(c)
 	c.shared("R6", "C08/R1", "rules keep running for every element: a `next` (or any other way out of a function body) leaves no frame behind, otherwise a long input ends in a spurious `call depth limit exceeded` and the remaining elements and END rules are never reached", keyHas("balance "), func(s *Ctx) { c08R1(s, discoverFrameModel(s.P)) })
 	c.shared("R5", "C14/R2", "the -r selectors reach the interpreter complete and in the order given: multiFlag.Set appends, Run passes the accumulated slice", keyHas("selector"), c14R2)
+	c.shared("R8", "C04/R15", "`$` is bound to each element in turn: every element of an input array has a cell of its own (assigning to `$` for one element does not show up in another)", keyHas("value-construction"), func(s *Ctx) { newValueTable(s, "R15") })
 	c.shared("R7", "C14/R2", "the rules run for each file in the order given: the command line passes every named file, in order, as the file itself, and standard input only when no file was named", keyHas("input-file", "stdin-only-without-files"), c14R2)
 }
 
@@ -676,7 +677,7 @@ func c02R4(c *Ctx) {
 					g := guardsAt(p, pr, st.Block())
 					okP = g["p.current.Tag != LCurly"]
 					// whatever the kind of rule: nothing else decides that the body is the bare print
-					extra := extraGuardsBetween(p, pr, pr.Blocks[0], st.Block(), "p.current.Tag", "#1 == nil", "#1 != nil")
+					extra := extraGuardsBetween(p, pr, pr.Blocks[0], st.Block(), "p.current.Tag != LCurly", "#1 == nil", "#1 != nil")
 					if len(extra) > 0 {
 						otherBody = "the bare print is given only under {" + strings.Join(extra, " && ") + "}"
 					}
